@@ -93,6 +93,11 @@ def gen_param(rnd, base=None):
         outside = [k for k in range(len(p["cps"])) if not any(k in x["cps"] for x in p["crosses"])]
         if p["crosses"] and outside and rnd.random() < 0.6:
             j = rnd.choice(outside)      # a coverpoint that no cross covers: only its own comparison can tell the shapes apart
+        if p["crosses"] and rnd.random() < 0.35:
+            # the same covergroup, but this variant's cross is gated by an iff (CovergroupModel.equals does not look at it:
+            # the instances share one type covergroup)
+            p["crosses"][0]["iff"] = not p["crosses"][0].get("iff")
+            return p
         r = rnd.random()
         cp = p["cps"][j]
         if r < 0.35:
@@ -148,7 +153,7 @@ def gen_case(rnd):
         k = rnd.randrange(ninst)
         p = params[inst_params[k]]
         vals = [rnd.choice(c11.cp_values(cp)) for cp in p["cps"]]
-        sample_ops.append(["sample", k, vals])
+        sample_ops.append(["sample", k, vals] + ([rnd.choice([0, 0, 1])] if any(x.get("iff") for q in params for x in q["crosses"]) else []))
     # interleave creation of later instances with sampling of earlier ones
     out = [ops[0]]
     created = 1
